@@ -225,3 +225,61 @@ def run(prog, rep, tier):
                 rep.ob('R14.3', not bad, key, 'after the inner source is exhausted the decoder is still called before anything is returned' if not bad else
                        'when the inner source returns 0 bytes the reader returns (UnexpectedEof / Ok(0)) without calling the decoder: output the brotli decoder already holds is discarded, so data appended before a flush cannot be recovered',
                        rd.loc(zero_edges[0][0]))
+
+    # ---------------- R14.5 bytes a decode step produced are never replaced by an error
+    r14_5(prog, rep)
+
+
+def r14_5(prog, rep, RULE='R14.5'):
+    """In the fail-safe decompressor, after a BrotliDecompressStream call that did not report ResultFailure, an explicit error result is reachable only across
+    an edge on which the step's output count is 0. (The bytes are already in the caller's buffer: turning them into an error loses the tail that a flush pushed
+    out.) `?` on integer conversions (try_from) is not an explicit error result."""
+    rd = one_body(prog, rep, RULE, 'mla', adt='layers::compress::CompressionLayerFailSafeReader', name='read', trait='std::io::Read')
+    if rd is None:
+        return
+    dec = [b for b in rd.calls() if cnorm(b.term).endswith('BrotliDecompressStream')]
+    key = RULE + '|%s|produced-bytes-not-dropped' % rd.nkey
+    if len(dec) != 1 or dec[0].term.target is None:
+        rep.ob(RULE, False, key, 'anchors: decode calls=%d' % len(dec), rd.loc())
+        return
+    d = dec[0]
+    # the output count: the `&mut usize` handed over right before the output buffer (5th argument of BrotliDecompressStream)
+    outs = set()
+    if len(d.term.args) >= 5 and d.term.args[4].place is not None:
+        outs = {l for l in origins(rd, [d.term.args[4].place[0]], through_calls=False).locals if rd.lty(l) == 'usize'}
+    if not outs:
+        rep.ob(RULE, False, key, 'anchor: output-count argument of the decode call not found', rd.loc(d.idx))
+        return
+    cut = []
+    for bl in rd.blocks:
+        si = switch_info(prog, rd, bl.idx)
+        if not si or si['kind'] != 'bool':
+            continue
+        e = expr_of(rd, si['cond'])
+        if e[0] == 'binop' and e[1] in ('Eq', 'Ne', 'Gt') and e[3][0] == 'const' and e[3][1] == 0 and e[2][0] == 'place' and \
+                origins(rd, [e[2][1][0]], through_calls=False).locals & outs:
+            cut.append((bl.idx, si['true'] if e[1] == 'Eq' else si['false']))
+    for sbb, si in arm_of_enum_switch(prog, rd):
+        if 'BrotliResult' in (si['adt'] or ''):
+            t = enum_arm_target(si, 'ResultFailure')
+            if t is not None:
+                cut.append((sbb, t))
+            if si.get('otherwise') is not None and t is None:
+                cut.append((sbb, si['otherwise']))
+    r = reachable_vs(rd, d.term.target, removed_blocks=[d.idx], removed_edges=cut)
+    bad = []
+    for x in r:
+        bl = rd.blocks[x]
+        if bl.cleanup:
+            continue
+        for i, s in enumerate(bl.stmts):
+            if s.kind == 'assign' and s.rv.r == 'aggregate' and s.rv.j.get('variant') == 'Err' and rd.lty(s.place[0]).startswith('std::result::Result<usize'):
+                bad.append(rd.loc(x, i))
+        t = bl.term
+        if t.kind == 'call' and t.cmethod == 'from_residual' and t.args and t.args[0].place is not None:
+            o = origins(rd, [t.args[0].place[0]])
+            if not any(rd.blocks[c].term.cmethod in ('try_from', 'try_into', 'checked_add', 'checked_sub', 'checked_mul', 'ok_or', 'ok_or_else') for c in o.calls):
+                bad.append(rd.loc(x))
+    rep.ob(RULE, not bad, key, 'after a decode step, an error result is reachable only where the step produced 0 bytes (or the decoder reported failure)' if not bad else
+           'an error is returned after a decode step that may have written bytes into the caller\'s buffer (%s): the bytes the decoder still held at the end of the '
+           'input -- what a flush pushed out -- are dropped' % ', '.join(bad), rd.loc(d.idx))
